@@ -117,14 +117,23 @@ Lemma string_field_np sz m v a fb s st : bs_ok (EStr sz m v a fb) = true ->
   is_panic (string_field sjis_enc cd sz m v a fb s st) = false.
 Proof.
   intro Hb. unfold string_field. destruct (sjis_enc s) as [e0|]; [|reflexivity].
-  match goal with |- context [let '(e2, st1) := ?X in _] => destruct X as [e2 st1] end.
-  apply np_bind; [|intros; reflexivity].
-  destruct sz as [len nl|bs|bs]; cbn [bs_ok] in Hb.
-  - destruct (len <? zlen e2); reflexivity.
-  - apply negb_true_iff in Hb. rewrite Hb. destruct (zlen e2 mod bs =? 0); [reflexivity|].
-    unfold null_pad. rewrite Hb. reflexivity.
-  - apply negb_true_iff in Hb. rewrite Hb. destruct (zlen e2 mod bs =? 0); [reflexivity|].
-    unfold null_pad. rewrite Hb. reflexivity.
+  assert (Hgen : forall e2 (st1 : option bytes),
+    is_panic (do e3 <- match sz with
+                       | SBlock bs | SPascal bs => if bs =? 0 then Panic P_DIV0 else if zlen e2 mod bs =? 0 then Ok e2 else null_pad e2 bs
+                       | SFixed len _ => if len <? zlen e2 then Err E_TOOLARGE else Ok (resize e2 len)
+                       end;
+              let e4 := apply_mask e3 m v a in
+              let st2 := if fb && match s with 124 :: _ => true | _ => false end then Some e4 else st1 in
+              let pre := match sz with SPascal _ => le_bytes (cd_pascal_prefix cd) (zlen e4) | _ => [] end in
+              Ok (pre ++ e4, st2)) = false).
+  { intros e2 st1. apply np_bind; [|intros; reflexivity].
+    destruct sz as [len nl|bs|bs]; cbn [bs_ok] in Hb.
+    - destruct (len <? zlen e2); reflexivity.
+    - apply negb_true_iff in Hb. rewrite Hb. destruct (zlen e2 mod bs =? 0); [reflexivity|].
+      unfold null_pad. rewrite Hb. reflexivity.
+    - apply negb_true_iff in Hb. rewrite Hb. destruct (zlen e2 mod bs =? 0); [reflexivity|].
+      unfold null_pad. rewrite Hb. reflexivity. }
+  destruct fb; [destruct st|]; apply Hgen.
 Qed.
 
 Lemma encode_field_np e a st : is_pad e = false -> is_arg0 e = false -> bs_ok e = true -> enc_known cd e = true ->
@@ -168,9 +177,9 @@ Proof.
     apply np_bind; [now apply IH|]. intros [[[[b m] w] st'] bit'] _. reflexivity.
   - destruct args as [|a args']; [discriminate|]. apply andb_true_iff in Ht. destruct Ht as [Hta Ht].
     rewrite (enc_loop_nonpad sjis_enc cd) by assumption. cbv zeta.
-    match goal with |- context [let '(m0, w0, bit1) := ?X in _] => destruct X as [[m0 w0] bit1] end.
-    apply np_bind; [now apply encode_field_np|]. intros [b0 st1] _.
-    apply np_bind; [now apply IH|]. intros [[[[b m] w] st'] bit'] _. reflexivity.
+    destruct (contributes cd e); [destruct (always_imm cd e && negb ((if a_reg a then bit else 0) =? 0))|];
+      (apply np_bind; [now apply encode_field_np|]; intros [b0 st1] _;
+       apply np_bind; [now apply IH|]; intros [[[[b m] w] st'] bit'] _; reflexivity).
 Qed.
 
 (* C12: an accepted call never makes encode_args panic *)
@@ -196,7 +205,8 @@ Proof.
       * apply np_bind; [now apply write_int_np|intros; reflexivity].
       * intros [[sg1 ar1] ex] Hh. apply obind_ok in Hh. destruct Hh as [bv [_ Hh]]. inv Hh.
         pose proof (typed_call_length _ _ Ht1) as Hlen.
-        destruct (zlen sig1 <? zlen args1) eqn:El; [apply Z.ltb_lt in El; unfold zlen in El; lia|].
+        match goal with |- context [zlen ?s <? zlen ?a] => destruct (zlen s <? zlen a) eqn:El end;
+          [apply Z.ltb_lt in El; unfold zlen in El; lia|].
         apply np_bind; [now apply enc_loop_np|]. intros [[[[b m] w] st'] bit'] _. reflexivity.
     + assert (Hh : (match e :: sig1 with
                     | EInt _ _ _ true :: sig' =>
